@@ -90,15 +90,16 @@ def run(ctx, R):
     for a in producing:
         v = a.value
         ifs = C.guarding_ifs(a, f.node)
-        okg = False
-        for i, br in ifs:
-            if br != 'body':
-                continue
-            cj = _conj(i.test)
-            cmps = [nz.cmp(c) for c in cj]
-            truthy = any(src(c) == 'self._limit' for c in cj)
-            if want_guard in cmps and truthy:
-                okg = True
+        # branch literals (explicit tests and guard clauses alike): the
+        # limit is set, and it is smaller than the number of requests
+        ls = C.conds(a, f.node, implicit=True)
+        truthy = any(pol and src(e) == 'self._limit' for e, pol in ls)
+        cmps = []
+        for e, pol in ls:
+            c = nz.cmp(e)
+            if c is not None:
+                cmps.append(c if pol else c.negate())
+        okg = truthy and want_guard in cmps
         R.ob('R20.1', 'guard@%s' % src(v)[:40], okg,
              'limiting happens only when self._limit and self._limit < '
              'len(%s)' % P, [src(i.test) for i, _b in ifs], func=f, node=a)
@@ -128,8 +129,8 @@ def run(ctx, R):
          'nothing else adds, removes or replaces elements of the request '
          'list', [src(b)[:50] for b in bad], func=f)
     rets = [n for n in own_nodes(f.node) if isinstance(n, ast.Return)]
-    okr = len(rets) == 1 and isinstance(rets[0].value, ast.Tuple) and [
-        src(x) for x in rets[0].value.elts] == [P, S]
+    okr = bool(rets) and all(isinstance(r.value, ast.Tuple) and [
+        src(x) for x in r.value.elts] == [P, S] for r in rets)
     R.ob('R20.1', 'returns-list', okr,
          'limit_results returns (requests, summaries)', [src(r.value)
                                                          for r in rets],
@@ -241,9 +242,8 @@ def run(ctx, R):
                 want_kept
             rl, sl = rview['stmt'], kview['stmt']
             # the roots are collected from the limited list ...
-            rifs = C.guarding_ifs(rl, f.node)
-            okdom = bool(rifs) and g.must_pass(rifs[0][0], rl,
-                                               set(producing))
+            okdom = bool(producing) and g.must_pass(
+                cfgmod.ENTRY, rl, set(producing))
             # ... and that very list is what is returned: after the roots
             # were collected nothing rebinds the list they were taken from,
             # and the returned name is it (directly, or by a plain copy of
